@@ -59,4 +59,24 @@ def importCmd (c : Caps) (o : CliOpts) : List Bytes :=
   [b!"git", b!"-C", o.target, b!"-c", b!"core.ignorecase=false", b!"fast-import", b!"--force", b!"--quiet"] ++
     (if c.anonymizeMap then [b!"--date-format=raw-permissive"] else [])
 
+/-! ### lib.rs: `validate_options` and the dispatch of `run`, over the parsed command line -/
+
+/-- `validate_options`: the option sets a filtering run refuses before it touches anything -/
+def validCli (o : CliOpts) : Bool :=
+  !(!o.detectSecrets && !o.detectPatterns.isEmpty) &&
+  (match o.maxBlob with | some m => m != 0 && m != 18446744073709551615 | none => true) &&
+  !(o.noData && o.replaceText.isSome) &&
+  o.paths.all (fun p => decide (p.length ≤ 4096)) &&
+  o.renames.all (fun (a, b) => a != b && decide (a.length ≤ 4096) && decide (b.length ≤ 4096))
+
+/-- which part of the tool a parsed command line reaches (`lib.rs run`) -/
+inductive Dispatch where
+  | detect | analyze | refused | filter
+  deriving DecidableEq, Repr
+
+def dispatch (o : CliOpts) : Dispatch :=
+  if o.detectSecrets then .detect
+  else if o.analyze then .analyze
+  else if validCli o then .filter else .refused
+
 end Frrs.Pipes
